@@ -252,6 +252,8 @@ def spec_class(it):
     t = spec[0]
     if t == 'rsub':
         return 'rsub-' + (spec[2][0] if not isinstance(spec[2], int) else 'literal')
+    if t == 'diff':
+        return 'diff-label'
     while t in ('hi', 'lo', 'add'):
         t = t + '-' + (spec[1][0] if not isinstance(spec[1], int) else 'literal')
         spec = spec[1]
